@@ -39,7 +39,7 @@ def pStmt : P Stmt := do
   let t ← tok
   match t with
   | "m" => do let r ← pRx; let pc ← pPc; pure (.mtch r pc)
-  | "w" => do pure (.wait (← pRx))
+  | "w" => do let r ← pRx; let pc ← pPc; pure (.wait r pc)
   | "a" => do pure (.act (← pSAct))
   | "case" => do
     let g ← pBool
